@@ -263,6 +263,19 @@ func (x *Exec) wantSort(env *CEnv, t Term, s, what string) {
 func (x *Exec) cident(env *CEnv, name, want string) Term {
 	if r, ok := x.rename[name]; ok {
 		if _, bound := env.names[name]; !bound {
+			if strings.HasPrefix(r, "expr:") {
+				// the contract's name stands for an expression over the code's variables
+				// (a result that the code no longer binds: rank -> len(node.fingers))
+				e, err := ParseCExpr(r[5:])
+				if err != nil {
+					x.cfail(env, "rename %s: %v", name, err)
+				}
+				saved := x.rename
+				x.rename = nil
+				t := x.ceval(env, e, want)
+				x.rename = saved
+				return t
+			}
 			name = r
 		}
 	}
